@@ -29,12 +29,14 @@ def ext_domain(tx: t.List[str]) -> t.List[t.Dict[str, t.List[str]]]:
     out += [{"A": [x]} for x in tx]
     out += [{"A": [tx[0], tx[1]]}, {"ORIGIN": [tx[1]], "a-b_c": [tx[2], tx[0]]}, {"A": []}, {"a-b_c": [tx[3], tx[3], tx[4]]}, {"ORIGIN": ["RFC 4512"], "A": []}]
     out += [{"ORIGIN": ["x", x]} for x in tx[:40]]
+    out.append({"K" + "abcdefghijklmnopqrstuvwxyz"[i] + "-_" : ["v%d" % i] for i in range(12)})  # many extensions
+    out.append({"MANY": ["v%d" % i for i in range(40)] + [tx[1], tx[2]], "Z": [tx[3]]})  # many values
     return out
 
 
-OIDS = ["1.2", "0.9.2342", "2.16.840.1.113730"]
-NAMES = U.LIST(["cn", "a-1", "X"])
-OIDLIST = U.LIST(["top", "2.5.6.0", "a-b"])
+OIDS = ["1.2", "0.9.2342", "2.16.840.1.113730", "1.3.6.1.4.1." + ".".join(str(7 * i) for i in range(40))]
+NAMES = U.LIST(["cn", "a-1", "X"]) + [["n%d" % i for i in range(30)], ["a" * 200]]
+OIDLIST = U.LIST(["top", "2.5.6.0", "a-b"]) + [["o%d" % i if i % 2 else "2.5.4.%d" % i for i in range(40)]]
 OID1 = [None, "name", "2.5.4.41", "a-b"]
 SYNTAX = [(None, None), ("1.3.6.1", None), ("1.3.6.1", 0), ("1.3.6.1", 1), ("1.3.6.1", 64), ("1.3.6.1", 32768), ("1.2", None), ("0.9.2342.19200300", 7)]
 
